@@ -3,8 +3,8 @@
   remapped indices), merged cells per type, merged cell / point field values.
 -/
 import FcProofs.Lemmas.Merge
-namespace Fc
-open Spec
+namespace Fc.C06
+open Fc.C06.Spec
 
 /-! ### generalities -/
 
@@ -385,8 +385,8 @@ theorem findCellField_merge (types : List String) (cf1 cf2 : List CellField) (n 
 /-! ### rows of concatenated arrays -/
 
 theorem row_concat_left (a b : NdArr) (l1 c : Nat) (ha : a.data.length = l1 * a.rowSize) (hc : c < l1) :
-    (a.concat b).row c = a.row c := by
-  have hrs : (a.concat b).rowSize = a.rowSize := by simp [NdArr.concat, NdArr.rowSize]
+    (NdArr.concat a b).row c = a.row c := by
+  have hrs : (NdArr.concat a b).rowSize = a.rowSize := by simp [NdArr.concat, NdArr.rowSize]
   simp only [NdArr.row, hrs]
   simp only [NdArr.concat]
   have h1 : (c + 1) * a.rowSize ≤ l1 * a.rowSize := Nat.mul_le_mul_right _ hc
@@ -394,8 +394,8 @@ theorem row_concat_left (a b : NdArr) (l1 c : Nat) (ha : a.data.length = l1 * a.
   rw [List.drop_append_of_le_length (by omega), List.take_append_of_le_length (by simp; omega)]
 
 theorem row_concat_right (a b : NdArr) (l1 c : Nat) (ha : a.data.length = l1 * a.rowSize)
-    (hrs : b.rowSize = a.rowSize) : (a.concat b).row (l1 + c) = b.row c := by
-  have hrs' : (a.concat b).rowSize = a.rowSize := by simp [NdArr.concat, NdArr.rowSize]
+    (hrs : b.rowSize = a.rowSize) : (NdArr.concat a b).row (l1 + c) = b.row c := by
+  have hrs' : (NdArr.concat a b).rowSize = a.rowSize := by simp [NdArr.concat, NdArr.rowSize]
   simp only [NdArr.row, hrs', hrs]
   simp only [NdArr.concat]
   have : (l1 + c) * a.rowSize = a.data.length + c * a.rowSize := by rw [Nat.add_mul, ha]
@@ -415,7 +415,7 @@ theorem row_out_of_range (a : NdArr) (l c : Nat) (ha : a.data.length = l * a.row
 /-- what the theorems assume about one piece (and what every merge step preserves):
     rows of one length, no coincident points, cell corners in range, well-formed field arrays whose
     entry size depends on the field name only, every named field present where there are cells -/
-structure PieceOk (f : MeshFields) (d : Nat) (cnames pnames : List String) (rsC rsP : String → Nat) : Prop where
+structure PieceOk (f : MeshFields) (d : Nat) (cnames pnames : List String) (rsC rsP : String → Nat) (dtC dtP : String → DType) : Prop where
   rows : ∀ p ∈ f.mesh.points, p.length = d
   nodup : f.mesh.points.Nodup
   cellIdx : ∀ b ∈ f.mesh.cells, ∀ row ∈ b.2, ∀ p ∈ row, p < f.mesh.points.length
@@ -429,6 +429,8 @@ structure PieceOk (f : MeshFields) (d : Nat) (cnames pnames : List String) (rsC 
   pfComplete : ∀ n ∈ pnames, (f.pointFields.find? (·.name == n)).isSome = true
   cfNames : ∀ cf ∈ f.cellFields, cf.name ∈ cnames
   pfNames : ∀ pf ∈ f.pointFields, pf.name ∈ pnames
+  cfDType : ∀ cf ∈ f.cellFields, cf.values.dtype = dtC cf.name
+  pfDType : ∀ pf ∈ f.pointFields, pf.values.dtype = dtP pf.name
 
 /-- the duplicate map of one step -/
 def stepDups (srt : List (List Int) → List Nat) (f1 f2 : MeshFields) : List (Option Nat) :=
@@ -481,15 +483,15 @@ theorem findCellField_some (cfs : List CellField) (n ct : String) (a : CellField
   simp only [Bool.and_eq_true, beq_iff_eq] at h2
   exact ⟨h1, h2.1, h2.2⟩
 
-theorem PieceOk.cfComplete {f : MeshFields} {d : Nat} {cnames pnames : List String} {rsC rsP : String → Nat}
-    (h : PieceOk f d cnames pnames rsC rsP) (ct : String) (hne : f.mesh.cellsOf ct ≠ []) :
+theorem PieceOk.cfComplete {f : MeshFields} {d : Nat} {cnames pnames : List String} {rsC rsP : String → Nat} {dtC dtP : String → DType}
+    (h : PieceOk f d cnames pnames rsC rsP dtC dtP) (ct : String) (hne : f.mesh.cellsOf ct ≠ []) :
     ∀ n ∈ cnames, (findCellField f.cellFields n ct).isSome = true :=
   h.cfCompleteB ct (mem_types_of_rows _ ct (by simpa [cellsOf_eq_rowsOfType] using hne)) hne
 
 /-- cell data of the merged mesh on a cell that came from the earlier mesh / the later piece -/
 theorem cellValue_step (srt : List (List Int) → List Nat) (f1 f2 : MeshFields) (d : Nat)
-    (cnames pnames : List String) (rsC rsP : String → Nat)
-    (h1 : PieceOk f1 d cnames pnames rsC rsP) (h2 : PieceOk f2 d cnames pnames rsC rsP)
+    (cnames pnames : List String) (rsC rsP : String → Nat) (dtC dtP : String → DType)
+    (h1 : PieceOk f1 d cnames pnames rsC rsP dtC dtP) (h2 : PieceOk f2 d cnames pnames rsC rsP dtC dtP)
     (ct n : String) (hn : n ∈ cnames) :
     (∀ c, c < (f1.mesh.cellsOf ct).length →
         cellValue (stepResult srt f1 f2) n ct c = cellValue f1 n ct c) ∧
@@ -563,8 +565,8 @@ theorem getD_map_default {α β} (f : α → β) (l : List α) (i : Nat) (d : α
 /-- **one merge step, cells**: for every cell type, the merged data set lists exactly the earlier
     mesh's cells followed by the later piece's cells — same corner coordinates, same cell data -/
 theorem cellItemsOf_step (srt : List (List Int) → List Nat) (f1 f2 : MeshFields) (d : Nat)
-    (cnames pnames : List String) (rsC rsP : String → Nat)
-    (h1 : PieceOk f1 d cnames pnames rsC rsP) (h2 : PieceOk f2 d cnames pnames rsC rsP)
+    (cnames pnames : List String) (rsC rsP : String → Nat) (dtC dtP : String → DType)
+    (h1 : PieceOk f1 d cnames pnames rsC rsP dtC dtP) (h2 : PieceOk f2 d cnames pnames rsC rsP dtC dtP)
     (hinv : DupInv f2.mesh.points f1.mesh.points f1.mesh.points.length (stepDups srt f1 f2))
     (ct : String) :
     cellItemsOf (stepResult srt f1 f2) cnames ct = cellItemsOf f1 cnames ct ++ cellItemsOf f2 cnames ct := by
@@ -599,7 +601,7 @@ theorem cellItemsOf_step (srt : List (List Int) → List Nat) (f1 f2 : MeshField
       rw [List.getD_eq_getElem?_getD, List.getElem?_append_left hlt, ← List.getD_eq_getElem?_getD]
     · apply List.map_congr_left
       intro n hn
-      rw [(cellValue_step srt f1 f2 d cnames pnames rsC rsP h1 h2 ct n hn).1 c hc]
+      rw [(cellValue_step srt f1 f2 d cnames pnames rsC rsP dtC dtP h1 h2 ct n hn).1 c hc]
   · apply List.map_congr_left
     intro c hc
     simp only [List.mem_range] at hc
@@ -623,7 +625,7 @@ theorem cellItemsOf_step (srt : List (List Int) → List Nat) (f1 f2 : MeshField
       exact remap_point f1.mesh.points f2.mesh.points _ hinv p hlt
     · apply List.map_congr_left
       intro n hn
-      rw [(cellValue_step srt f1 f2 d cnames pnames rsC rsP h1 h2 ct n hn).2 c hc]
+      rw [(cellValue_step srt f1 f2 d cnames pnames rsC rsP dtC dtP h1 h2 ct n hn).2 c hc]
 
 /-! ### merged point fields -/
 
@@ -670,8 +672,8 @@ theorem row_length (a : NdArr) (l i : Nat) (ha : a.data.length = l * a.rowSize) 
 
 theorem row_takeRows (b : NdArr) (l : Nat) (idx : List Nat) (hb : b.data.length = l * b.rowSize)
     (hidx : ∀ i ∈ idx, i < l) (r : Nat) (hr : r < idx.length) :
-    (b.takeRows idx).row r = b.row (idx.getD r 0) := by
-  have hrs : (b.takeRows idx).rowSize = b.rowSize := by simp [NdArr.takeRows, NdArr.rowSize]
+    (NdArr.takeRows b idx).row r = b.row (idx.getD r 0) := by
+  have hrs : (NdArr.takeRows b idx).rowSize = b.rowSize := by simp [NdArr.takeRows, NdArr.rowSize]
   simp only [NdArr.row, hrs]
   simp only [NdArr.takeRows]
   have := flatMap_chunk b.row b.rowSize idx (fun i hi => row_length b l i hb (hidx i hi)) r hr
@@ -679,8 +681,8 @@ theorem row_takeRows (b : NdArr) (l : Nat) (idx : List Nat) (hb : b.data.length 
 
 /-- point data of the merged mesh at an earlier point / at the `r`-th appended point -/
 theorem pointValue_step (srt : List (List Int) → List Nat) (f1 f2 : MeshFields) (d : Nat)
-    (cnames pnames : List String) (rsC rsP : String → Nat)
-    (h1 : PieceOk f1 d cnames pnames rsC rsP) (h2 : PieceOk f2 d cnames pnames rsC rsP)
+    (cnames pnames : List String) (rsC rsP : String → Nat) (dtC dtP : String → DType)
+    (h1 : PieceOk f1 d cnames pnames rsC rsP dtC dtP) (h2 : PieceOk f2 d cnames pnames rsC rsP dtC dtP)
     (hinv : DupInv f2.mesh.points f1.mesh.points f1.mesh.points.length (stepDups srt f1 f2))
     (n : String) (hn : n ∈ pnames) :
     (∀ p, p < f1.mesh.points.length → pointValue (stepResult srt f1 f2) n p = pointValue f1 n p) ∧
@@ -700,13 +702,13 @@ theorem pointValue_step (srt : List (List Int) → List Nat) (f1 f2 : MeshFields
       have hbm := List.mem_of_find?_eq_some hb
       have hbn : b.name = n := by simpa using List.find?_some hb
       have hfind : (stepResult srt f1 f2).pointFields.find? (·.name == n) =
-          some ⟨a.name, a.values.concat (b.values.takeRows (filterExternal (stepDups srt f1 f2)))⟩ := by
+          some ⟨a.name, NdArr.concat a.values (NdArr.takeRows b.values (filterExternal (stepDups srt f1 f2)))⟩ := by
         simp only [stepResult, mergePointFields]
         rw [List.find?_append, find_map_name _ (fun a => mergePointEntry_name _ _ a _), ha]
         simp only [Option.map_some, Option.some_or, han, hb, mergePointEntry]
       have hwa := (h1.pfWf a ham).1
-      have hrs : (b.values.takeRows (filterExternal (stepDups srt f1 f2))).rowSize = a.values.rowSize := by
-        have : (b.values.takeRows (filterExternal (stepDups srt f1 f2))).rowSize = b.values.rowSize := by
+      have hrs : (NdArr.takeRows b.values (filterExternal (stepDups srt f1 f2))).rowSize = a.values.rowSize := by
+        have : (NdArr.takeRows b.values (filterExternal (stepDups srt f1 f2))).rowSize = b.values.rowSize := by
           simp [NdArr.takeRows, NdArr.rowSize]
         rw [this, (h1.pfWf a ham).2, (h2.pfWf b hbm).2, han, hbn]
       constructor
@@ -728,8 +730,8 @@ theorem pointValue_step (srt : List (List Int) → List Nat) (f1 f2 : MeshFields
 /-- **one merge step, points**: the merged point items are the earlier mesh's point items followed by
     the items of the later piece's kept (non-duplicate) points -/
 theorem pointItemsOf_step (srt : List (List Int) → List Nat) (f1 f2 : MeshFields) (d : Nat)
-    (cnames pnames : List String) (rsC rsP : String → Nat)
-    (h1 : PieceOk f1 d cnames pnames rsC rsP) (h2 : PieceOk f2 d cnames pnames rsC rsP)
+    (cnames pnames : List String) (rsC rsP : String → Nat) (dtC dtP : String → DType)
+    (h1 : PieceOk f1 d cnames pnames rsC rsP dtC dtP) (h2 : PieceOk f2 d cnames pnames rsC rsP dtC dtP)
     (hinv : DupInv f2.mesh.points f1.mesh.points f1.mesh.points.length (stepDups srt f1 f2)) :
     pointItemsOf (stepResult srt f1 f2) pnames =
       pointItemsOf f1 pnames ++ (filterExternal (stepDups srt f1 f2)).map (pointItemBy f2 pnames) := by
@@ -749,7 +751,7 @@ theorem pointItemsOf_step (srt : List (List Int) → List Nat) (f1 f2 : MeshFiel
       rw [List.getD_eq_getElem?_getD, List.getElem?_append_left hp, ← List.getD_eq_getElem?_getD]
     · apply List.map_congr_left
       intro n hn
-      rw [(pointValue_step srt f1 f2 d cnames pnames rsC rsP h1 h2 hinv n hn).1 p hp]
+      rw [(pointValue_step srt f1 f2 d cnames pnames rsC rsP dtC dtP h1 h2 hinv n hn).1 p hp]
   · apply List.ext_getElem?
     intro r
     simp only [List.getElem?_map]
@@ -766,7 +768,7 @@ theorem pointItemsOf_step (srt : List (List Int) → List Nat) (f1 f2 : MeshFiel
         rfl
       · apply List.map_congr_left
         intro n hn
-        rw [(pointValue_step srt f1 f2 d cnames pnames rsC rsP h1 h2 hinv n hn).2 r hr, hget]
+        rw [(pointValue_step srt f1 f2 d cnames pnames rsC rsP dtC dtP h1 h2 hinv n hn).2 r hr, hget]
     · have hr' : (filterExternal (stepDups srt f1 f2)).length ≤ r := by omega
       rw [List.getElem?_eq_none hr']
       simp [hr]
@@ -792,10 +794,10 @@ theorem mem_mergeCellFields (types : List String) (cf1 cf2 : List CellField) (cf
   exact ⟨ct, hct, n, hn, he⟩
 
 theorem stepResult_ok (srt : List (List Int) → List Nat) (f1 f2 : MeshFields) (d : Nat)
-    (cnames pnames : List String) (rsC rsP : String → Nat)
-    (h1 : PieceOk f1 d cnames pnames rsC rsP) (h2 : PieceOk f2 d cnames pnames rsC rsP)
+    (cnames pnames : List String) (rsC rsP : String → Nat) (dtC dtP : String → DType)
+    (h1 : PieceOk f1 d cnames pnames rsC rsP dtC dtP) (h2 : PieceOk f2 d cnames pnames rsC rsP dtC dtP)
     (hinv : DupInv f2.mesh.points f1.mesh.points f1.mesh.points.length (stepDups srt f1 f2)) :
-    PieceOk (stepResult srt f1 f2) d cnames pnames rsC rsP := by
+    PieceOk (stepResult srt f1 f2) d cnames pnames rsC rsP dtC dtP := by
   have hpts : (stepResult srt f1 f2).mesh.points =
       mergedPoints f1.mesh.points f2.mesh.points (stepDups srt f1 f2) := rfl
   have hrows : ∀ ct, (stepResult srt f1 f2).mesh.cellsOf ct =
@@ -816,7 +818,7 @@ theorem stepResult_ok (srt : List (List Int) → List Nat) (f1 f2 : MeshFields) 
     obtain ⟨rows, ⟨b, hb, rfl⟩, hr⟩ := hrow
     rw [hpts]
     exact remap_lt _ _ _ hinv p (h2.cellIdx b hb row hr p hp)
-  refine ⟨?_, ?_, ?_, ?_, ?_, ?_, ?_, ?_, ?_⟩
+  refine ⟨?_, ?_, ?_, ?_, ?_, ?_, ?_, ?_, ?_, ?_, ?_⟩
   · intro q hq
     rw [hpts, mem_mergedPoints _ _ _ hinv] at hq
     exact hq.elim (h1.rows q) (h2.rows q)
@@ -892,7 +894,7 @@ theorem stepResult_ok (srt : List (List Int) → List Nat) (f1 f2 : MeshFields) 
         simp only [mergeCellEntry, Option.some.injEq] at he
         subst he
         have hrs : b.values.rowSize = a.values.rowSize := by rw [hwa.2, hwb.2, han, hbn]
-        have hcr : (a.values.concat b.values).rowSize = a.values.rowSize := by simp [NdArr.concat, NdArr.rowSize]
+        have hcr : (NdArr.concat a.values b.values).rowSize = a.values.rowSize := by simp [NdArr.concat, NdArr.rowSize]
         refine ⟨?_, by rw [hcr, hwa.2, han]⟩
         rw [hcr]
         simp only [NdArr.concat, List.length_append, hwa.1, hwb.1, hrs, Nat.add_mul]
@@ -931,7 +933,7 @@ theorem stepResult_ok (srt : List (List Int) → List Nat) (f1 f2 : MeshFields) 
         have hwb := h2.pfWf b hbm
         have hrs : b.values.rowSize = a.values.rowSize := by rw [hwa.2, hwb.2, hbn]
         simp only [mergePointEntry]
-        have hcr : (a.values.concat (b.values.takeRows (filterExternal (stepDups srt f1 f2)))).rowSize
+        have hcr : (NdArr.concat a.values (NdArr.takeRows b.values (filterExternal (stepDups srt f1 f2)))).rowSize
             = a.values.rowSize := by simp [NdArr.concat, NdArr.rowSize]
         refine ⟨?_, by rw [hcr]; exact hwa.2⟩
         rw [hcr, hpts]
@@ -972,6 +974,45 @@ theorem stepResult_ok (srt : List (List Int) → List Nat) (f1 f2 : MeshFields) 
     rcases hpf with ⟨a, ha, rfl⟩ | ⟨b, ⟨hb, _⟩, rfl⟩
     · rw [mergePointEntry_name]; exact h1.pfNames a ha
     · exact h2.pfNames b hb
+  · -- numeric types of the cell fields
+    intro cf hcf
+    obtain ⟨ct, _, n, _, he⟩ := mem_mergeCellFields _ _ _ cf hcf
+    obtain ⟨hcn, _⟩ := mergeCellEntry_name_ctype n ct _ _ cf he
+    cases ha : findCellField f1.cellFields n ct with
+    | none =>
+      cases hb : findCellField f2.cellFields n ct with
+      | none => rw [ha, hb] at he; cases he
+      | some b =>
+        rw [ha, hb] at he
+        simp only [mergeCellEntry, Option.some.injEq] at he
+        subst he
+        obtain ⟨hbm, hbn, _⟩ := findCellField_some _ _ _ _ hb
+        simp only
+        rw [h2.cfDType b hbm, hbn]
+    | some a =>
+      obtain ⟨ham, han, _⟩ := findCellField_some _ _ _ _ ha
+      cases hb : findCellField f2.cellFields n ct with
+      | none =>
+        rw [ha, hb] at he
+        simp only [mergeCellEntry, Option.some.injEq] at he
+        subst he
+        simp only
+        rw [h1.cfDType a ham, han]
+      | some b =>
+        rw [ha, hb] at he
+        simp only [mergeCellEntry, Option.some.injEq] at he
+        subst he
+        simp only [NdArr.concat]
+        rw [h1.cfDType a ham, han]
+  · -- numeric types of the point fields
+    intro pf hpf
+    simp only [stepResult, mergePointFields, List.mem_append, List.mem_map, List.mem_filter] at hpf
+    rcases hpf with ⟨a, ha, rfl⟩ | ⟨b, ⟨hb, _⟩, rfl⟩
+    · rw [mergePointEntry_name]
+      cases f2.pointFields.find? (·.name == a.name) <;>
+        simp only [mergePointEntry, NdArr.concat] <;> exact h1.pfDType a ha
+    · simp only [NdArr.concat, NdArr.zerosLike]
+      exact h2.pfDType b hb
 
 /-! ### the fold over the pieces -/
 
@@ -993,24 +1034,24 @@ def SortsRows (srt : List (List Int) → List Nat) : Prop :=
   ∀ (pts : List (List Int)) (d : Nat), (∀ p ∈ pts, p.length = d) → IsLexSort pts (srt pts)
 
 theorem stepDups_inv (srt : List (List Int) → List Nat) (hsrt : SortsRows srt) (f1 f2 : MeshFields) (d : Nat)
-    (cnames pnames : List String) (rsC rsP : String → Nat)
-    (h2 : PieceOk f2 d cnames pnames rsC rsP) :
+    (cnames pnames : List String) (rsC rsP : String → Nat) (dtC dtP : String → DType)
+    (h2 : PieceOk f2 d cnames pnames rsC rsP dtC dtP) :
     DupInv f2.mesh.points f1.mesh.points f1.mesh.points.length (stepDups srt f1 f2) :=
   mapDuplicatePoints_inv _ _ _ d (hsrt _ d h2.rows) h2.rows ((nodupRows_iff _).mpr h2.nodup)
 
 /-- invariant of `merge`'s loop: `W` = point items of the whole data set (single-valued:
     items with equal coordinates are equal) -/
 theorem mergeFold_spec (srt : List (List Int) → List Nat) (hsrt : SortsRows srt) (d : Nat)
-    (cnames pnames : List String) (rsC rsP : String → Nat)
+    (cnames pnames : List String) (rsC rsP : String → Nat) (dtC dtP : String → DType)
     (W : List PointItem) (hW : ∀ a ∈ W, ∀ b ∈ W, a.coords = b.coords → a = b)
     (rest : List MeshFields) (acc : MeshFields) (seen : List (List Int))
-    (hacc : PieceOk acc d cnames pnames rsC rsP)
-    (hrest : ∀ f ∈ rest, PieceOk f d cnames pnames rsC rsP)
+    (hacc : PieceOk acc d cnames pnames rsC rsP dtC dtP)
+    (hrest : ∀ f ∈ rest, PieceOk f d cnames pnames rsC rsP dtC dtP)
     (hseen : ∀ q, q ∈ seen ↔ q ∈ acc.mesh.points)
     (haccW : ∀ it ∈ pointItemsOf acc pnames, it ∈ W)
     (hrestW : ∀ f ∈ rest, ∀ it ∈ pointItemsOf f pnames, it ∈ W)
     (hnew : laterBringNew seen rest = true) :
-    PieceOk (rest.foldl (merge1 srt) acc) d cnames pnames rsC rsP ∧
+    PieceOk (rest.foldl (merge1 srt) acc) d cnames pnames rsC rsP dtC dtP ∧
     (∀ ct, cellItemsOf (rest.foldl (merge1 srt) acc) cnames ct =
         cellItemsOf acc cnames ct ++ rest.flatMap (cellItemsOf · cnames ct)) ∧
     (∀ it, it ∈ pointItemsOf (rest.foldl (merge1 srt) acc) pnames ↔
@@ -1021,13 +1062,13 @@ theorem mergeFold_spec (srt : List (List Int) → List Nat) (hsrt : SortsRows sr
     simp only [laterBringNew, Bool.and_eq_true] at hnew
     obtain ⟨hnew1, hnew2⟩ := hnew
     have hf := hrest f (List.mem_cons_self ..)
-    have hinv := stepDups_inv srt hsrt acc f d cnames pnames rsC rsP hf
+    have hinv := stepDups_inv srt hsrt acc f d cnames pnames rsC rsP dtC dtP hf
     have hfilt : (filterExternal (stepDups srt acc f)).isEmpty = false := by
       apply filter_nonempty_of_new _ _ _ hinv
       rw [← bringsNewPoint_congr seen acc.mesh.points f.mesh.points hseen]
       exact hnew1
     have hstep := merge1_eq_stepResult srt acc f hfilt
-    have hitems := pointItemsOf_step srt acc f d cnames pnames rsC rsP hacc hf hinv
+    have hitems := pointItemsOf_step srt acc f d cnames pnames rsC rsP dtC dtP hacc hf hinv
     simp only [List.foldl_cons, hstep]
     have hmemstep : ∀ it, it ∈ pointItemsOf (stepResult srt acc f) pnames ↔
         it ∈ pointItemsOf acc pnames ∨ it ∈ pointItemsOf f pnames := by
@@ -1063,7 +1104,7 @@ theorem mergeFold_spec (srt : List (List Int) → List Nat) (hsrt : SortsRows sr
             rw [this]
             exact (mem_pointItemsOf acc pnames _).mpr ⟨j, hj, rfl⟩
     obtain ⟨ih1, ih2, ih3⟩ := ih (stepResult srt acc f) (seen ++ f.mesh.points)
-      (stepResult_ok srt acc f d cnames pnames rsC rsP hacc hf hinv)
+      (stepResult_ok srt acc f d cnames pnames rsC rsP dtC dtP hacc hf hinv)
       (fun g hg => hrest g (List.mem_cons_of_mem _ hg))
       (by
         intro q
@@ -1078,7 +1119,7 @@ theorem mergeFold_spec (srt : List (List Int) → List Nat) (hsrt : SortsRows sr
       hnew2
     refine ⟨ih1, ?_, ?_⟩
     · intro ct
-      rw [ih2 ct, cellItemsOf_step srt acc f d cnames pnames rsC rsP hacc hf hinv ct]
+      rw [ih2 ct, cellItemsOf_step srt acc f d cnames pnames rsC rsP dtC dtP hacc hf hinv ct]
       simp [List.flatMap_cons, List.append_assoc]
     · intro it
       rw [ih3 it, hmemstep it]
@@ -1128,4 +1169,4 @@ theorem pointItems_single_valued (f : MeshFields) (names : List String) (h : f.m
   have : k = k' := ((nodupRows_iff _).mpr h) k k' hk hk' (by simpa [pointItemBy] using hab)
   rw [this]
 
-end Fc
+end Fc.C06
